@@ -16,6 +16,7 @@ package badger
 
 import (
 	"context"
+	"time"
 
 	"github.com/dgraph-io/badger"
 
@@ -39,10 +40,10 @@ func NewKvStorage(config Config) (storage.KvStorage, error) {
 }
 
 func (b *store) GetTimestampOracle(ctx context.Context) (timestamp uint64, err error) {
-	txn := b.db.NewTransaction(false)
-	defer txn.Discard()
-	ts := txn.ReadTs()
-	return ts, nil
+	// the read timestamp of badger only counts commits, while revisions are also dealt for writes which never commit,
+	// so it can fall behind the revisions stored and a new leader initialized from it would deal them again.
+	// use the wall clock as memkv does (iter does not read at the timestamp anyway).
+	return uint64(time.Now().UnixNano()), nil
 }
 
 func (b *store) SupportTTL() bool {
